@@ -293,7 +293,7 @@ def replacement_runs(text, dialect, acc, max_runs):
 def run_shard(ctx):
     from mindsdb_sql import parse_sql
     acc = ctx.acc
-    base = [('extra', s) for s in EXTRA] + base_statements(ctx.seed, 6000 if ctx.tier == 'quick' else 40000)
+    base = [('extra', s) for s in EXTRA] + base_statements(ctx.seed, 6000 if ctx.tier == 'quick' else 100000)
     classes = ('Select', 'Union', 'Intersect', 'Except', 'Insert', 'Update', 'Delete', 'CreateTable')
     for i, (label, text) in enumerate(base):
         if not ctx.mine(i):
